@@ -190,7 +190,7 @@ func genObject(r *vh.Rng, c *genCfg, depth int, top bool) *node {
 
 // genDoc returns a random document with a top-level object and the generator class.
 func genDoc(r *vh.Rng) (*node, string) {
-	c := &genCfg{maxDepth: 1 + r.Intn(6), maxWidth: 1 + r.Intn(6), budget: 10 + r.Intn(70), emptyObj: true}
+	c := &genCfg{maxDepth: 1 + r.Intn(6), maxWidth: 1 + r.Intn(6), budget: 6 + r.Intn(45), emptyObj: true}
 	class := ""
 	switch k := r.Intn(100); {
 	case k < 45: // inside the theorem's hypotheses: brackets in strings, but no pattern
